@@ -58,33 +58,35 @@ def ap_any(p):
 SLICES = {
     'marked': (BASE + ('modsubs', 'marked', 'kwargs'), X.tf_marked(), ap_marked, 3),
     'marked-noadjust': (BASE + ('modsubs', 'marked'), X.tf_marked(adjust_imports=False), ap_marked, 1),
-    'marked-return': (('modsubs', 'marked', 'return'), X.tf_marked(), ap_marked, 1),
-    'marked-print': (('modsubs', 'marked', 'calleeprint'), X.tf_marked(), ap_marked, 1),
-    'marked-exprdep': (('modsubs', 'marked', 'exprdep'), X.tf_marked(), ap_marked, 1),
-    'marked-identnames': (('modsubs', 'marked', 'identnames'), X.tf_marked(), ap_marked, 1),
-    'marked-nestedsub': (('modsubs', 'marked', 'nestedsub'), X.tf_marked(), ap_marked, 1),
-    'marked-nested': (('modsubs', 'marked', 'nested', 'functions'), X.tf_marked(), ap_marked, 1),
+    'marked-lbounds': (BASE + ('modsubs', 'marked', 'lbshift'), X.tf_marked(), ap_marked, 2),
+    'marked-return': (('modsubs', 'marked', 'return'), X.tf_marked(), X.need(ap_marked, 'return'), 1),
+    'marked-print': (('modsubs', 'marked', 'calleeprint'), X.tf_marked(), X.need(ap_marked, 'callee-print'), 1),
+    'marked-exprdep': (('modsubs', 'marked', 'exprdep'), X.tf_marked(), X.need(ap_marked, 'expr-actual-mentions-defined'), 1),
+    'marked-identnames': (('modsubs', 'marked', 'identnames'), X.tf_marked(), X.need(ap_marked, 'actual-mentions-dummy-name'), 1),
+    'marked-nestedsub': (('modsubs', 'marked', 'nestedsub'), X.tf_marked(), X.need(ap_marked, 'nested-subscript'), 1),
+    'marked-nested': (('modsubs', 'marked', 'nested', 'functions', 'imported'), X.tf_marked(), X.need(ap_marked, 'nested'), 1),
     'internal': (BASE + ('internal', 'modsubs'), X.tf_internal, ap_intsub, 3),
-    'internal-nestedsub': (('internal', 'nestedsub'), X.tf_internal, ap_intsub, 1),
+    'internal-lbounds': (BASE + ('internal', 'lbshift'), X.tf_internal, ap_intsub, 1),
+    'internal-nestedsub': (('internal', 'nestedsub'), X.tf_internal, X.need(ap_intsub, 'nested-subscript'), 1),
     'internal-fn': (('internal', 'internalfn'), X.tf_internal, ap_internal, 1),
     'functions': (BASE + ('functions', 'elemental'), X.tf_functions(), ap_functions, 3),
-    'functions-elseif': (('functions', 'fnelseif'), X.tf_functions(), ap_functions, 1),
-    'functions-inlineif': (('functions', 'fninlineif', 'exitcycle'), X.tf_functions(), ap_functions, 1),
-    'functions-while': (('functions', 'fnwhile', 'while'), X.tf_functions(), ap_functions, 1),
-    'functions-nestedargs': (('functions', 'elemental', 'fnnest'), X.tf_functions(), ap_functions, 1),
-    'functions-resclash': (('functions', 'elemental', 'resclash', 'nested'), X.tf_functions(), ap_functions, 1),
-    'functions-print': (('functions', 'printrefs'), X.tf_functions(), ap_functions, 1),
+    'functions-elseif': (('functions', 'fnelseif'), X.tf_functions(), X.need(ap_functions, 'ctx=elseif'), 1),
+    'functions-inlineif': (('functions', 'fninlineif', 'exitcycle'), X.tf_functions(), X.need(ap_functions, 'ctx=inline-if'), 1),
+    'functions-while': (('functions', 'fnwhile', 'while'), X.tf_functions(), X.need(ap_functions, 'ctx=while'), 1),
+    'functions-nestedargs': (('functions', 'elemental', 'fnnest'), X.tf_functions(), X.need(ap_functions, 'fn-in-fn-arg'), 1),
+    'functions-resclash': (('functions', 'elemental', 'resclash', 'nested'), X.tf_functions(), X.need(ap_functions, 'result-clash'), 1),
+    'functions-print': (('functions', 'printrefs', 'imported'), X.tf_functions(), X.need(ap_functions, 'ctx=print'), 1),
     'functions-all': (('functions',), X.tf_functions(explicit=False), ap_functions, 1),
     'elemental': (('functions', 'elemental', 'select'), X.tf_elemental, ap_elemental, 1),
     'stmtfunc': (('stmtfunc', 'consts', 'select'), X.tf_stmtfunc, ap_stmtfunc, 2),
-    'stmtfunc-bare': (('stmtfunc', 'sfbare'), X.tf_stmtfunc, ap_stmtfunc, 1),
-    'stmtfunc-nested': (('stmtfunc', 'sfnest'), X.tf_stmtfunc, ap_stmtfunc, 1),
-    'stmtfunc-fn': (('stmtfunc', 'functions'), X.tf_stmtfunc, ap_stmtfunc, 1),
+    'stmtfunc-bare': (('stmtfunc', 'sfbare'), X.tf_stmtfunc, X.need(ap_stmtfunc, 'sf-bare'), 1),
+    'stmtfunc-nested': (('stmtfunc', 'sfnest'), X.tf_stmtfunc, X.need(ap_stmtfunc, 'fn-in-fn-arg|nested'), 1),
+    'stmtfunc-fn': (('stmtfunc', 'functions'), X.tf_stmtfunc, X.need(ap_stmtfunc, 'fn=modfun'), 1),
     'constants': (('consts', 'localconst', 'internal', 'select'), X.tf_constants(True), ap_extconsts, 2),
     'constants-kindfn': (('consts', 'kindfn'), X.tf_constants(True), ap_extconsts, 1),
-    'constants-dep': (('consts', 'constdep'), X.tf_constants(True), ap_extconsts, 1),
-    'constants-internal': (('consts', 'internal', 'constinternal'), X.tf_constants(True), ap_extconsts, 1),
-    'constants-print': (('consts', 'printrefs'), X.tf_constants(True), ap_extconsts, 1),
+    'constants-dep': (('consts', 'constdep'), X.tf_constants(True), X.need(ap_extconsts, 'const-dep'), 1),
+    'constants-internal': (('consts', 'internal', 'constinternal'), X.tf_constants(True), X.need(ap_extconsts, 'const-internal'), 1),
+    'constants-print': (('consts', 'printrefs'), X.tf_constants(True), X.need(ap_extconsts, 'const-in-print'), 1),
     'constants-all': (('consts', 'localconst', 'internal'), X.tf_constants(False), ap_consts, 1),
     'xform-default': (('modsubs', 'marked', 'functions', 'elemental'), X.tf_transformation(), ap_any, 2),
     'xform-all': (('modsubs', 'marked', 'stmtfunc', 'consts', 'internal'),
